@@ -65,7 +65,9 @@ package protocol
 //@ func UnmarshalAck serves C14
 //@   safety
 //@ func UnmarshalServerInfoRequest serves C14
+//@   returns (msg, err)
 //@   safety
+//@   ensures [always-a-message-object] msg != nil
 //@ func UnmarshalServerInfoResponse serves C14
 //@   safety
 //@ func UnmarshalPropagatedRequest serves C14
@@ -75,17 +77,25 @@ package protocol
 //@ func UnmarshalPropagatedResponse serves C14
 //@   safety
 //@ func UnmarshalPartitionStatusRequest serves C14
+//@   returns (msg, err)
 //@   safety
+//@   ensures [always-a-message-object] msg != nil
 //@ func UnmarshalPartitionStatusResponse serves C14
 //@   safety
 //@ func UnmarshalRaftJoinRequest serves C14
+//@   returns (msg, err)
 //@   safety
+//@   ensures [always-a-message-object] msg != nil
 //@ func UnmarshalRaftJoinResponse serves C14
 //@   safety
 //@ func UnmarshalPartitionNotification serves C14
+//@   returns (msg, err)
 //@   safety
+//@   ensures [always-a-message-object] msg != nil
 //@ func UnmarshalLeaderEpochOffsetRequest serves C14
+//@   returns (msg, err)
 //@   safety
+//@   ensures [always-a-message-object] msg != nil
 //@ func UnmarshalLeaderEpochOffsetResponse serves C14
 //@   safety
 //@ func UnmarshalReplicationRequest serves C14
